@@ -20,6 +20,7 @@ DOCS = [
     '"""desc""" type T implements I & J @d { "d" f(a: Int = 1): [T!]! } extend union U = | A | B enum E { X Y } '
     "directive @d(x: Int) repeatable on FIELD | QUERY schema { query: T }",
     "{ a(s: \"\\u{1F600}\\n\") # c\n b }",
+    '"""\n  Summary\n\n      indented example\n  """ type T { "d" f(a: String = """ x\n\n   y"""): Int }',
 ]
 BOUNDARIES = []
 for _d in DOCS:
@@ -215,7 +216,7 @@ def obligations(tier):
         for cls in range(6 if n else 1):
             obs.append(dict(fn="token_stream", cell=dict(length=n, cls=cls), budget_s=900 if thorough else 120))
             obs.append(dict(fn="strip_short", cell=dict(length=n, cls=cls), budget_s=900 if thorough else 120))
-    docs = range(len(DOCS)) if thorough else (1, 3)
+    docs = range(len(DOCS)) if thorough else (1, 3, 4)
     for d in docs:
         nb = len(BOUNDARIES[d])
         step = 4
